@@ -422,8 +422,101 @@ func RandomProgram(d Drawer, wgSize int) (*insts.KernelCodeObject, []string, err
 			p.VAddcU32(8, Imm(0), 8)
 		}
 	}
+	// second phase (2 of 3 programs): after the stores, late scalar loads
+	// behind s_waitcnt lgkmcnt(0) (with and without waiting for the stores
+	// first), a reload of the work-item's own freshly stored record, and a
+	// second store of the combined value
+	if d.Intn(3, "rp.phase2") > 0 {
+		if d.Intn(2, "rp.p2.waitstores") == 0 {
+			p.SWaitcnt(0, 15)
+		}
+		p.SLoadDword(28, 0, uint32(16+4*d.Intn(4, "rp.p2.k")))
+		if d.Intn(2, "rp.p2.x2") == 0 {
+			p.SLoadDwordX2(30, 0, 16)
+			p.SWaitcnt(15, 0)
+			p.VXorB32(16, S(30), 16)
+			p.VAddU32(16, S(31), 16)
+		} else {
+			p.SWaitcnt(15, 0)
+		}
+		p.VXorB32(17, S(28), 17)
+		p.VMovB32(8, S(11))
+		p.VAddU32(7, S(10), 4)
+		p.VAddcU32(8, Imm(0), 8) // &out[gid]
+		if d.Intn(2, "rp.p2.reload") == 0 {
+			p.SWaitcnt(0, 15)
+			p.FlatLoadDword(20, 7) // own record, field 0, as stored above
+			p.SWaitcnt(0, 15)
+			p.VAddU32(16, V(20), 16)
+		}
+		p.VAddU32(16, V(17), 16)
+		p.FlatStoreDword(7, 16)
+	}
 	p.SWaitcnt(0, 0)
 	p.SEndpgm()
 	co, err := p.CodeObject(KernelSpec{KernargBytes: 32, SGPRs: 32, VGPRs: 24, WGIDX: true})
 	return co, p.Listing(), err
+}
+
+// GatherArgs is the argument struct of the Gather kernel.
+type GatherArgs struct {
+	In   uint64
+	Out  uint64
+	Mask uint32 // n-1, n a power of two = number of elements of In and Out
+	K    uint32 // odd multiplier
+	C    uint32
+	Pad  uint32
+}
+
+// Gather builds an element-wise kernel whose input accesses reach the whole
+// input buffer: out[gid] = (in[(gid*K + C) & Mask] * 3 + in[gid]) ^ gid.
+// Every work-item writes only its own output element (race free); with the
+// buffers spread over several GPUs most reads and many writes are remote.
+func Gather(wgSize int) (*insts.KernelCodeObject, []string, error) {
+	p := New()
+	p.SLoadDwordX4(8, 0, 0)   // s[8:9] = in, s[10:11] = out
+	p.SLoadDwordX4(20, 0, 16) // s20 = mask, s21 = K, s22 = C
+	p.SMulI32(S(12), S(2), p.Lit(uint32(wgSize)))
+	p.VAddU32(3, S(12), 0) // gid
+	p.SWaitcnt(15, 0)
+	p.VMulLoU32(4, V(3), S(21))
+	p.VAddU32(4, S(22), 4)
+	p.VAndB32(4, S(20), 4)      // idx
+	p.VLshlrevB32(4, Imm(2), 4) // byte offset of in[idx]
+	p.VLshlrevB32(9, Imm(2), 3) // byte offset of [gid]
+	p.VMovB32(6, S(9))
+	p.VAddU32(5, S(8), 4)
+	p.VAddcU32(6, Imm(0), 6) // &in[idx]
+	p.FlatLoadDword(16, 5)
+	p.VMovB32(6, S(9))
+	p.VAddU32(5, S(8), 9)
+	p.VAddcU32(6, Imm(0), 6) // &in[gid]
+	p.FlatLoadDword(17, 5)
+	p.VMovB32(8, S(11))
+	p.VAddU32(7, S(10), 9)
+	p.VAddcU32(8, Imm(0), 8) // &out[gid]
+	p.SWaitcnt(0, 15)
+	p.VMulU32U24(18, Imm(3), 16) // low 24 bits * 3
+	p.VLshrrevB32(19, Imm(24), 16)
+	p.VLshlrevB32(19, Imm(24), 19) // high byte kept
+	p.VXorB32(18, V(19), 18)
+	p.VAddU32(18, V(17), 18)
+	p.VXorB32(18, V(3), 18)
+	p.FlatStoreDword(7, 18)
+	p.SWaitcnt(0, 0)
+	p.SEndpgm()
+	co, err := p.CodeObject(KernelSpec{KernargBytes: 32, SGPRs: 32, VGPRs: 24, WGIDX: true})
+	return co, p.Listing(), err
+}
+
+// GatherModel computes the expected output of Gather.
+func GatherModel(in []uint32, k, c uint32) []uint32 {
+	n := uint32(len(in))
+	out := make([]uint32, n)
+	for g := uint32(0); g < n; g++ {
+		v := in[(g*k+c)&(n-1)]
+		t := ((v & 0xffffff) * 3) ^ (v >> 24 << 24)
+		out[g] = (in[g] + t) ^ g
+	}
+	return out
 }
